@@ -77,6 +77,51 @@ def sx(t):
     raise ValueError(t)
 
 
+def unsx(s):
+    """inverse of sx (the driver's `full` answers in the same syntax)"""
+    toks = s.replace("(", " ( ").replace(")", " ) ").split()
+    pos = [0]
+
+    def one():
+        assert toks[pos[0]] == "("
+        pos[0] += 1
+        k = toks[pos[0]]; pos[0] += 1
+        if k == "N":
+            v = ("N", int(toks[pos[0]])); pos[0] += 1
+        elif k == "V":
+            v = ("V", toks[pos[0]]); pos[0] += 1
+        elif k == "P":
+            v = ("P", one())
+        elif k == "B":
+            o = toks[pos[0]]; pos[0] += 1
+            v = ("B", o, one(), one())
+        elif k in ("U", "PRE", "POST"):
+            o = toks[pos[0]]; pos[0] += 1
+            v = (k, o, one())
+        elif k == "I":
+            v = ("I", one(), one())
+        elif k in ("M", "A"):
+            a = one()
+            v = (k, a, toks[pos[0]]); pos[0] += 1
+        elif k == "C":
+            f = toks[pos[0]]; pos[0] += 1
+            args = []
+            while toks[pos[0]] != ")":
+                args.append(one())
+            v = ("C", f, args)
+        elif k == "T":
+            v = ("T", one(), one(), one())
+        elif k == "S":
+            o = toks[pos[0]]; pos[0] += 1
+            v = ("S", o, one(), one())
+        else:
+            raise ValueError(k)
+        assert toks[pos[0]] == ")"
+        pos[0] += 1
+        return v
+    return one()
+
+
 def children(t):
     k = t[0]
     if k in ("N", "V"):
@@ -243,7 +288,7 @@ def model_lines(sub, lines, table="pinned"):
 def model_tree(trees, table="pinned"):
     """-> list of dicts {text, wf, safe, nogtlp, rt, dump}"""
     res = []
-    for l in model_lines("tree", [t if isinstance(t, str) else sx(t) for t in trees], table):
+    for l in model_lines("tree", [sx(t) for t in trees], table):
         if l.startswith("BAD"):
             raise RuntimeError("driver rejected a tree: " + l)
         text, flags, dump = l.split(" @@@ ")
@@ -264,7 +309,8 @@ def model_eval(cases):
 
 
 def model_full(trees):
-    return model_lines("full", [sx(t) for t in trees])
+    """the model's `full` (every operand in parentheses), as trees"""
+    return [unsx(l) for l in model_lines("full", [sx(t) for t in trees])]
 
 
 # ------------------------------------------------------------------ implementation side
@@ -435,12 +481,19 @@ def mutate_tokens(rng, toks):
     toks = list(toks)
     for _ in range(rng.choice([1, 1, 2])):
         r = rng.random()
-        if r < 0.35 and toks:
+        if r < 0.25 and toks:
             del toks[rng.randrange(len(toks))]
-        elif r < 0.7:
+        elif r < 0.45:
             toks.insert(rng.randrange(len(toks) + 1), rng.choice(pool))
-        elif toks:
+        elif r < 0.6 and toks:
             toks[rng.randrange(len(toks))] = rng.choice(pool)
+        elif r < 0.8 and toks:
+            ops = [i for i, t in enumerate(toks) if t in BINOPS or t in ASGOPS or t in ("?", ":")]
+            if ops:
+                toks[rng.choice(ops)] = rng.choice(BINOPS + ASGOPS + ["?", ":"])
+        elif len(toks) >= 2:
+            i = rng.randrange(len(toks) - 1)
+            toks[i], toks[i + 1] = toks[i + 1], toks[i]
     return toks
 
 
@@ -451,3 +504,662 @@ def outside_fragment(text):
     """token shapes the model does not cover (method call, chained call / call through a parenthesised
     callee): the malformed stream skips them"""
     return bool(_OUTSIDE.search(text)) or text.strip() == ""
+
+
+def primary_lbracket(text, safe):
+    """array literals are outside the modelled fragment: a `[` in operand position, or after a `)`
+    when the stream trips the cast look-ahead"""
+    toks = text.split()
+    for i, t in enumerate(toks):
+        if t == "[":
+            prev = toks[i - 1] if i else None
+            if prev is None or not (re.match(r"[a-z_0-9]", prev) or prev in (")", "]")):
+                return True
+            if prev == ")" and not safe:
+                return True
+    return False
+
+
+def triple_cases():
+    """thorough: all operator triples in the five tree shapes over four operands"""
+    a, b, c, d = [("V", x) for x in VARS[:4]]
+    for o1 in BINOPS:
+        for o2 in BINOPS:
+            for o3 in BINOPS:
+                yield ("B", o3, ("B", o2, ("B", o1, a, b), c), d)
+                yield ("B", o3, ("B", o1, a, ("B", o2, b, c)), d)
+                yield ("B", o2, ("B", o1, a, b), ("B", o3, c, d))
+                yield ("B", o1, a, ("B", o3, ("B", o2, b, c), d))
+                yield ("B", o1, a, ("B", o2, b, ("B", o3, c, d)))
+
+
+# ------------------------------------------------------------------ evaluation (the property's own observable)
+FUNS = "int f(int x, int y) { return x * 3 + y; }\nint g(int x) { return 7 - x; }\n"
+EVAL_KINDS = {"bin", "un", "tern", "par"}
+VALS = [0, 1, 2, 3, 5, 7, -1, -2, -4, 8]
+
+
+def rand_eval_tree(rng, depth, calls=True):
+    if depth <= 0 or rng.random() < 0.1:
+        if rng.random() < 0.3:
+            return ("N", rng.choice([0, 1, 2, 3, 5, 7, 10]))
+        return ("V", rng.choice(VARS))
+    r = rng.random()
+    sub = lambda: rand_eval_tree(rng, depth - 1, calls)   # noqa: E731
+    if r < 0.62:
+        return ("B", rng.choice(BINOPS), sub(), sub())
+    if r < 0.78:
+        return ("U", rng.choice(UNOPS), sub())
+    if r < 0.90:
+        return ("T", sub(), sub(), sub())
+    if calls and r < 0.96:
+        return rng.choice([("C", "g", [sub()]), ("C", "f", [sub(), sub()])])
+    return ("P", sub())
+
+
+def find_values(rng, trees, alts=(), tries=40, vals=None):
+    """operand values for a..e (brute force in the model) under which every tree in `trees` is defined
+    and, if possible, differs in value from every tree in `alts` (the other groupings)"""
+    cands = [[rng.choice(vals or VALS) for _ in VARS] for _ in range(tries)]
+    cases = [(vs, t) for vs in cands for t in list(trees) + list(alts)]
+    ev = model_eval(cases)
+    n = len(trees) + len(alts)
+    best = None
+    for k, vs in enumerate(cands):
+        row = ev[k * n:(k + 1) * n]
+        if any(v is None for v in row[:len(trees)]):
+            continue
+        disc = sum(1 for x in row[len(trees):] if x is not None and x != row[0])
+        if best is None or disc > best[0]:
+            best = (disc, vs, row[0])
+        if alts and disc == len(alts):
+            break
+    return best     # (number of alternatives told apart, values, expected value) or None
+
+
+def eval_program(cases):
+    """cases: list of (values, [expr text, ...]); prints every text of a case under its values"""
+    lines = [FUNS, "void main() {\n"]
+    lines.append("".join("  int %s = 0;\n" % v for v in VARS))
+    for vs, texts in cases:
+        lines.append("".join("  %s = %d;\n" % (v, x) for v, x in zip(VARS, vs)))
+        for t in texts:
+            lines.append("  println(%s);\n" % t)
+    lines.append("}\n")
+    return "".join(lines)
+
+
+def run_eval_cases(impl_dir, cases, chunk=25):
+    """-> per case: list of output lines (one per text) or ('ERR', rc, stderr)"""
+    out = [None] * len(cases)
+    chunks = [list(range(i, min(i + chunk, len(cases)))) for i in range(0, len(cases), chunk)]
+
+    def run_chunk(ch):
+        rc, o, e = common.run_cb(impl_dir, eval_program([cases[i] for i in ch]))
+        return ch, rc, o, e
+
+    retry = []
+    for ch, rc, o, e in common.pmap(run_chunk, chunks):
+        ls = o.split("\n")[:-1] if o.endswith("\n") else o.split("\n")
+        need = sum(len(cases[i][1]) for i in ch)
+        if rc == 0 and len(ls) == need:
+            k = 0
+            for i in ch:
+                n = len(cases[i][1])
+                out[i] = ls[k:k + n]
+                k += n
+        else:
+            retry += ch
+
+    def run_one(i):
+        rc, o, e = common.run_cb(impl_dir, eval_program([cases[i]]))
+        ls = o.split("\n")[:-1] if o.endswith("\n") else o.split("\n")
+        if rc == 0 and len(ls) == len(cases[i][1]):
+            return i, ls
+        return i, ("ERR", rc, (o[-200:] + " | " + e[-300:]))
+
+    for i, r in common.pmap(run_one, retry):
+        out[i] = r
+    return out
+
+
+def effect_program(cases):
+    """cases: list of (values, [statement-or-expression text...]) with side effects (++/--, op=):
+    the variables are reset before every text and printed after it"""
+    lines = [FUNS, "void main() {\n", "".join("  int %s = 0;\n" % v for v in VARS)]
+    for vs, texts in cases:
+        for t in texts:
+            lines.append("".join("  %s = %d;\n" % (v, x) for v, x in zip(VARS, vs)))
+            lines.append("  %s\n" % t)
+            lines.append("  println(%s);\n" % ", ".join(VARS))
+    lines.append("}\n")
+    return "".join(lines)
+
+
+# ------------------------------------------------------------------ shrinking
+def subtrees(t):
+    yield t
+    if t[0] == "C":
+        for a in t[2]:
+            yield from subtrees(a)
+    else:
+        for c in children(t):
+            yield from subtrees(t[c])
+
+
+def shrink_candidates(t):
+    """smaller trees: every proper sub-tree, and the tree with one node replaced by one of its children"""
+    seen, out = set(), []
+
+    def add(x):
+        k = sx(x)
+        if k not in seen and size(x) < size(t):
+            seen.add(k)
+            out.append(x)
+    for s in list(subtrees(t))[1:]:
+        add(s)
+    for path in list(positions(t)):
+        node = get_at(t, path)
+        kids = node[2] if node[0] == "C" else [node[c] for c in children(node)]
+        for k in kids:
+            try:
+                add(replace_at(t, path, lambda _s, k=k: k))
+            except Exception:
+                pass
+    out.sort(key=size)
+    return out[:60]
+
+
+def tree_disagrees(impl_dir, trees):
+    """for each source tree: None if the real parser agrees with the model on its printed text, else a dict"""
+    mt = model_tree(trees)
+    texts = [m["text"] for m in mt]
+    mp = model_parse(texts)
+    im = impl_dumps(impl_dir, texts, [False] * len(texts))
+    res = []
+    for t, m, p_, i in zip(trees, mt, mp, im):
+        v = model_verdict(p_)
+        if v == "SKIP" or v == i or (primary_lbracket(m["text"], m["safe"]) and v == "ERR"):
+            res.append(None)
+        else:
+            res.append({"text": m["text"], "model": p_, "impl": i, "wf": m["wf"], "safe": m["safe"], "rt": m["rt"]})
+    return res
+
+
+def shrink_tree(impl_dir, t, rounds=12):
+    cur = t
+    for _ in range(rounds):
+        cands = shrink_candidates(cur)
+        if not cands:
+            break
+        res = tree_disagrees(impl_dir, cands)
+        nxt = next((c for c, r in zip(cands, res) if r is not None), None)
+        if nxt is None:
+            break
+        cur = nxt
+    return cur
+
+
+def evaluable(t):
+    k = t[0]
+    if k in ("N", "V"):
+        return True
+    if k == "P":
+        return evaluable(t[1])
+    if k == "B":
+        return evaluable(t[2]) and evaluable(t[3])
+    if k == "U":
+        return t[1] in UNOPS and evaluable(t[2])
+    if k == "T":
+        return all(evaluable(t[i]) for i in (1, 2, 3))
+    if k == "C":
+        return ((t[1] == "g" and len(t[2]) == 1) or (t[1] == "f" and len(t[2]) == 2)) and all(evaluable(a) for a in t[2])
+    return False
+
+
+def property_oracle(impl_dir, seed, t):
+    """The property's own reading on one source tree: println(<minimal text>) and println(<fully
+    parenthesised text>) must print the same value (operand values by brute force in the model), and
+    the real parser must build the same AST for both texts.  -> (violated?, description, payload)"""
+    t0 = strip(t)
+    mt = model_tree([t0, model_full([t0])[0]])
+    tmin, tfull = mt[0]["text"], mt[1]["text"]
+    d = impl_dumps(impl_dir, [tmin, tfull], [False, False])
+    payload = {"minimal": tmin, "full": tfull, "impl_ast_minimal": d[0], "impl_ast_full": d[1]}
+    if evaluable(t0) and mt[0]["safe"] and mt[1]["safe"]:
+        rng = rng_for(seed, "c02-oracle", sx(t0))
+        cands = []
+        for _ in range(60):
+            vs = [rng.choice(VALS) for _ in VARS]
+            cands.append(vs)
+        ev = model_eval([(vs, t0) for vs in cands])
+        cases = [(vs, [tmin, tfull]) for vs, v in zip(cands, ev) if v is not None][:30]
+        exp = [v for v in ev if v is not None][:30]
+        outs = run_eval_cases(impl_dir, cases)
+        for (vs, _), o, want in zip(cases, outs, exp):
+            if isinstance(o, list) and o[0] != o[1]:
+                payload.update({"values": dict(zip(VARS, vs)), "printed_minimal": o[0], "printed_full": o[1],
+                                "value_of_the_tree": want, "program": eval_program([(vs, [tmin, tfull])])})
+                return True, "println(%s) prints %s but println(%s) prints %s with %s" % (
+                    tmin, o[0], tfull, o[1], dict(zip(VARS, vs))), payload
+    if d[0] != d[1]:
+        return True, "the parser groups `%s` differently from its fully parenthesised form `%s`" % (tmin, tfull), payload
+    return False, "println(min) = println(full) and equal ASTs on this input", payload
+
+
+# ------------------------------------------------------------------ known findings
+def replay_finding(impl_dir, f):
+    """-> True if the stored input still shows the defect"""
+    r = f["replay"]
+    env = {"CB_VERIF_PARSE_ONLY": "1"} if r.get("parse_only") else None
+    rc, o, e = common.run_cb(impl_dir, r["program"], env=env)
+    got = o.split("\n")[:-1] if o.endswith("\n") else o.split("\n")
+    ok = (rc == 0 and (r.get("parse_only") or got == r["expected"]))
+    return not ok, {"rc": rc, "stdout": got[:6], "stderr": e[:200]}
+
+
+# ------------------------------------------------------------------ main
+def run(rep):
+    seed, tier = rep.seed, rep.tier
+    quick = tier == "quick"
+    # (0) re-extract the ladder table from the current C++ text
+    gen = os.path.join(common.COQ, PROP, "Gen_LadderTable.v")
+    with common.Lock("c02-gen"):
+        info, tstatus = ladder_tr.regenerate(common.REPO, gen)
+    rep.coverage["translator"] = {"status": tstatus, "recognised": info.get("recognised"),
+                                  "problems": info.get("problems"),
+                                  "levels": [[ladder_tr.OP_TEXT[o] for o in l["ops"]] for l in info.get("levels", [])]}
+    if tstatus == "stale":
+        rep.notes.append("translator: stale - expression_parser.cpp no longer has the recognised shape (%s); "
+                         "Gen_LadderTable.v is the last generated one, relying on the correspondence run" % info.get("problems"))
+    # (1) proofs
+    cq = common.coq_check_props(PROP)
+    common.proof_coverage(rep, cq)
+    proof_broken = not cq["ok"]
+    common.ensure_model(PROP)
+    impl = common.build_impl("plain")
+
+    violations = []      # (kind, tree-or-text, detail)
+    hist = {}
+    n_eval = 0
+    distinct = set()
+    nontrivial = set()
+    avoided = {"paren-cast": 0, "generic-lookahead": 0, "outside-fragment": 0}
+    samples = []
+
+    # which operator pairs are ordered differently by the current C++ table and the pinned table
+    changed_pairs = []
+    if info.get("recognised"):
+        cur = {}
+        for k, l in enumerate(info["levels"]):
+            for o in l["ops"]:
+                cur.setdefault(ladder_tr.OP_TEXT[o], k + 1)
+    rc_, lv_out, _ = common.sh([common.model_bin(PROP), "levels", "pinned"])
+    pin = {l.split()[0]: int(l.split()[1]) for l in lv_out.split("\n") if l.strip()}
+    if info.get("recognised"):
+        sign = lambda x: (x > 0) - (x < 0)   # noqa: E731
+        for o1 in BINOPS:
+            for o2 in BINOPS:
+                if sign(cur.get(o1, 0) - cur.get(o2, 0)) != sign(pin[o1] - pin[o2]):
+                    changed_pairs.append((o1, o2))
+        rep.coverage["translator"]["pairs_ordered_differently_from_pinned"] = len(changed_pairs)
+
+    # ---------------- (2) AST correspondence: trees
+    trees, origin = [], []
+    corpus = os.path.join(common.VERIF, "corpus", "c02.json")
+    corpus_texts = []
+    if os.path.exists(corpus):
+        for c in json.load(open(corpus)):
+            if "tree" in c:
+                trees.append(c["tree"]); origin.append("corpus")
+            elif "text" in c:
+                corpus_texts.append(c["text"])
+    a_, b_, c_ = ("V", "a"), ("V", "b"), ("V", "c")
+    for (o1, o2) in changed_pairs[:40]:       # targeted: the operators whose relative level changed
+        trees += [("B", o2, ("B", o1, a_, b_), c_), ("B", o1, a_, ("B", o2, b_, c_))]
+        origin += ["table-diff", "table-diff"]
+    pc = pair_cases()
+    fulls = iter(model_full([c[2] for c in pc if c[0] == "pair-full"]))
+    for c in pc:
+        trees.append(next(fulls) if c[0] == "pair-full" else c[1])
+        origin.append(c[0])
+    n_exh = len(pc)
+    for t in nesting_cases():
+        trees.append(t); origin.append("nesting-min")
+        trees.append(model_full_one(t)); origin.append("nesting-full")
+    if not quick:
+        for t in triple_cases():
+            trees.append(t); origin.append("triple-min")
+    n_rand = 4000 if quick else 60000
+    all_kinds = {"bin", "un", "ptr", "incdec", "idx", "mem", "call", "tern", "asg", "par"}
+    for k in range(n_rand):
+        rng = rng_for(seed, "c02-tree", k)
+        depth = rng.choice([2, 3, 4, 5] if quick else [3, 4, 5, 6])
+        t = rand_tree(rng, depth, all_kinds if rng.random() < 0.7 else {"bin", "un", "tern", "par", "incdec"})
+        r = rng.random()
+        if r < 0.35:
+            t = strip(t); o = "random-min"
+        elif r < 0.6:
+            t = model_full_one(strip(t)); o = "random-full"
+        else:
+            t = add_random_pars(rng, t, rng.choice([0.05, 0.15, 0.4])); o = "random-redundant"
+        if o == "random-full":
+            pass                             # the model's `full` never wraps a type-like operand
+        elif rng.random() < 0.93:
+            t2 = avoid_paren_cast(t)        # avoidance predicate of C02-paren-ident-cast
+            if t2 != t:
+                avoided["paren-cast"] += 1
+            t = t2
+        else:
+            o += "+hazard"                   # kept on purpose: the model mirrors the defect, the ASTs must still agree
+        trees.append(t); origin.append(o)
+    # batch the model's `full` requests made above
+    trees = resolve_full(trees)
+
+    mt = model_tree(trees)
+    texts = [m["text"] for m in mt]
+    mp = model_parse(texts)
+    im = impl_dumps(impl, texts, [m["nogtlp"] for m in mt])
+    rt_fail = []
+    for t, o, m, p_, i in zip(trees, origin, mt, mp, im):
+        hist[o] = hist.get(o, 0) + 1
+        n_eval += 1
+        if not m["safe"]:
+            if not m["nogtlp"]:
+                avoided["generic-lookahead"] += 1
+        if m["wf"] and m["safe"] and not m["rt"]:
+            rt_fail.append((t, m["text"], p_))
+        v = model_verdict(p_)
+        if v == "SKIP":
+            continue
+        if m["text"] not in distinct:
+            distinct.add(m["text"])
+            if any(x in m["text"] for x in BINOPS + ["?", "=", "++", "--", "[", "."]):
+                nontrivial.add(m["text"])
+        if v != i:
+            if primary_lbracket(m["text"], m["safe"]) and v == "ERR":
+                avoided["outside-fragment"] += 1
+                continue
+            violations.append(("tree", t, {"origin": o, "text": m["text"], "model": p_, "impl": i, "safe": m["safe"]}))
+    for k in (n_exh // 2, len(trees) - 7, len(trees) - 3):
+        if 0 <= k < len(trees):
+            samples.append({"origin": origin[k], "tree": sx(trees[k]),
+                            "text": texts[k], "model": mp[k], "impl": im[k]})
+    for t, text, p_ in rt_fail[:3]:
+        rep.violation("model-roundtrip", {"tree": sx(t), "text": text, "model": p_},
+                      "extracted model contradicts roundtrip_general on a safe well-formed tree (model/extraction defect)", True)
+
+    # ---------------- (3) malformed token streams (one program each)
+    n_mal = 2500 if quick else 25000
+    base = [m["text"] for m, o in zip(mt, origin) if o.startswith("random")]
+    mtexts = list(corpus_texts)
+    for k in range(n_mal):
+        rng = rng_for(seed, "c02-mal", k)
+        toks = mutate_tokens(rng, rng.choice(base).split() if base else ["a"])
+        s = " ".join(toks)
+        if outside_fragment(s):
+            avoided["outside-fragment"] += 1
+            continue
+        mtexts.append(s)
+    mmp = model_parse(mtexts)
+    msafe = model_lines("safe", mtexts)
+    mim = impl_dumps(impl, mtexts, [False] * len(mtexts))
+    mal_ok = 0
+    for s, p_, i, sf in zip(mtexts, mmp, mim, msafe):
+        hist["malformed"] = hist.get("malformed", 0) + 1
+        n_eval += 1
+        v = model_verdict(p_)
+        if v == "SKIP":
+            continue
+        if v not in ("ERR",):
+            mal_ok += 1
+        if s not in distinct:
+            distinct.add(s); nontrivial.add(s)
+        if v != i:
+            if primary_lbracket(s, sf == "1"):
+                avoided["outside-fragment"] += 1
+                continue
+            violations.append(("text", s, {"origin": "malformed", "text": s, "model": p_, "impl": i}))
+    rep.coverage["malformed_accepted_by_both"] = mal_ok
+    if mtexts:
+        samples.append({"origin": "malformed", "text": mtexts[len(mtexts) // 2], "model": mmp[len(mtexts) // 2], "impl": mim[len(mtexts) // 2]})
+
+    # ---------------- (4) metamorphic evaluation: println(e) vs println(full(e)), operands from the model
+    ev_cases, ev_meta = [], []
+    a_, b_, c_ = ("V", "a"), ("V", "b"), ("V", "c")
+    pair_trees = []
+    for o1 in BINOPS:
+        for o2 in BINOPS:
+            pair_trees.append((("B", o2, ("B", o1, a_, b_), c_), ("B", o1, a_, ("B", o2, b_, c_))))
+    undisc = 0
+    for k, (tl, tr) in enumerate(pair_trees):
+        rng = rng_for(seed, "c02-pairval", k)
+        for t, alt in ((tl, tr), (tr, tl)):
+            best = find_values(rng, [t], [alt])
+            if best is None:
+                continue
+            if best[0] == 0:
+                undisc += 1
+            ev_meta.append({"tree": t, "values": best[1], "expect": best[2], "origin": "pair-eval"})
+    n_re = 1500 if quick else 20000
+    for k in range(n_re):
+        rng = rng_for(seed, "c02-evtree", k)
+        t = rand_eval_tree(rng, rng.choice([2, 3, 4, 5] if quick else [3, 4, 5, 6]))
+        best = find_values(rng, [t], (), tries=12)
+        if best is None:
+            continue
+        ev_meta.append({"tree": t, "values": best[1], "expect": best[2], "origin": "random-eval"})
+    # texts: minimal, full, one random redundant placement
+    mins = [strip(m["tree"]) for m in ev_meta]
+    fulls_sx = model_full(mins)
+    reds = []
+    for k, m in enumerate(ev_meta):
+        rng = rng_for(seed, "c02-evred", k)
+        reds.append(avoid_paren_cast(add_random_pars(rng, mins[k], 0.3)))
+    mt_min, mt_full, mt_red = model_tree(mins), model_tree(fulls_sx), model_tree(reds)
+    for m, x, y, z in zip(ev_meta, mt_min, mt_full, mt_red):
+        # one file holds many statements: the generic look-ahead scans across them, so every text must
+        # satisfy no_gt_lp (avoidance of C02-generic-lookahead)
+        ok = x["safe"] and y["safe"] and z["safe"] and x["nogtlp"] and y["nogtlp"] and z["nogtlp"]
+        m["texts"] = [x["text"], y["text"], z["text"]]
+        m["safe"] = ok
+        if not ok:
+            avoided["generic-lookahead"] += 1
+    ev_meta = [m for m in ev_meta if m["safe"]]
+    outs = run_eval_cases(impl, [(m["values"], m["texts"]) for m in ev_meta])
+    ev_distinct_values = set()
+    for m, o in zip(ev_meta, outs):
+        hist[m["origin"]] = hist.get(m["origin"], 0) + 1
+        n_eval += 1
+        key = (m["texts"][0], tuple(m["values"]))
+        if key not in distinct:
+            distinct.add(key); nontrivial.add(key)
+        if not isinstance(o, list):
+            violations.append(("eval", m["tree"], {"origin": m["origin"], "texts": m["texts"], "values": m["values"],
+                                                    "impl": list(o), "expect": m["expect"]}))
+            continue
+        ev_distinct_values.add(o[0])
+        if not (o[0] == o[1] == o[2] == str(m["expect"])):
+            violations.append(("eval", m["tree"], {"origin": m["origin"], "texts": m["texts"], "values": m["values"],
+                                                    "impl": o, "expect": m["expect"]}))
+    rep.coverage["evaluation_runs"] = len(ev_meta)
+    rep.coverage["pair_groupings_not_distinguishable_by_value"] = undisc
+    rep.coverage["distinct_printed_values"] = len(ev_distinct_values)
+    if ev_meta:
+        k = len(ev_meta) // 3
+        samples.append({"origin": ev_meta[k]["origin"], "values": dict(zip(VARS, ev_meta[k]["values"])),
+                        "println": ev_meta[k]["texts"], "printed": outs[k], "model_value": ev_meta[k]["expect"]})
+
+    # side effects: ++/-- inside expressions and op= statements, minimal vs full, same final state
+    eff_cases = []
+    n_eff = 300 if quick else 4000
+    for k in range(n_eff):
+        rng = rng_for(seed, "c02-eff", k)
+        pure = rand_eval_tree(rng, rng.choice([1, 2, 3]), calls=False)
+        used = set(re.findall(r"\(V (\w)\)", sx(pure)))
+        free = [v for v in VARS if v not in used]
+        if not free:
+            continue
+        x = rng.choice(free)
+        if rng.random() < 0.5:
+            inc = (rng.choice(["PRE", "POST"]), rng.choice(["++", "--"]), ("V", x))
+            t = ("B", rng.choice(BINOPS), inc, pure) if rng.random() < 0.5 else ("B", rng.choice(BINOPS), pure, inc)
+            if rng.random() < 0.3:
+                t = ("U", rng.choice(UNOPS), inc) if rng.random() < 0.5 else ("B", rng.choice(BINOPS), ("U", rng.choice(UNOPS), inc), pure)
+            guard = ("B", t[1], ("V", x), pure) if t[0] == "B" and t[2] == inc else pure
+            stmt = False
+        else:
+            op = rng.choice(ASGOPS)
+            t = ("S", op, ("V", x), pure)
+            guard = pure if op == "=" else ("B", op[:-1], ("V", x), pure)
+            stmt = True
+        # avoidance of C02-incdec-negative-add-segv: operands of ++/-- stay positive
+        best = find_values(rng, [guard], (), tries=12, vals=[1, 2, 3, 5, 7, 8])
+        if best is None:
+            continue
+        eff_cases.append((t, best[1], stmt))
+    e_min = model_tree([c[0] for c in eff_cases])
+    e_full = model_tree(model_full([c[0] for c in eff_cases]))
+    eff_run = []
+    for (t, vs, stmt), x, y in zip(eff_cases, e_min, e_full):
+        if x["safe"] and y["safe"] and x["nogtlp"] and y["nogtlp"]:
+            fmt = "%s;" if stmt else "println(%s);"
+            eff_run.append((vs, [fmt % x["text"], fmt % y["text"]], t))
+    chunks = [eff_run[i:i + 20] for i in range(0, len(eff_run), 20)]
+
+    def run_eff(ch):
+        rc, o, e = common.run_cb(impl, effect_program([(vs, tx) for vs, tx, _ in ch]))
+        return ch, rc, o, e
+    for ch, rc, o, e in common.pmap(run_eff, chunks):
+        ls = o.split("\n")[:-1] if o.endswith("\n") else o.split("\n")
+        per = []
+        k = 0
+        okc = rc == 0
+        for vs, tx, t in ch:
+            n = 4 if tx[0].startswith("println") else 2
+            per.append(ls[k:k + n]); k += n
+        if not okc or k != len(ls):
+            # a runtime error inside the chunk: rerun one by one
+            for vs, tx, t in ch:
+                rc1, o1, e1 = common.run_cb(impl, effect_program([(vs, tx)]))
+                l1 = o1.split("\n")[:-1]
+                n = 4 if tx[0].startswith("println") else 2
+                half = n // 2
+                n_eval += 1
+                hist["side-effects"] = hist.get("side-effects", 0) + 1
+                if rc1 != 0 or len(l1) != n or l1[:half] != l1[half:]:
+                    violations.append(("effect", t, {"origin": "side-effects", "texts": tx, "values": vs, "impl": l1, "rc": rc1, "stderr": e1[:200]}))
+            continue
+        for (vs, tx, t), l1 in zip(ch, per):
+            half = len(l1) // 2
+            n_eval += 1
+            hist["side-effects"] = hist.get("side-effects", 0) + 1
+            if l1[:half] != l1[half:]:
+                violations.append(("effect", t, {"origin": "side-effects", "texts": tx, "values": vs, "impl": l1}))
+    if eff_run:
+        samples.append({"origin": "side-effects", "values": dict(zip(VARS, eff_run[0][0])), "statements": eff_run[0][1]})
+
+    # ---------------- (5) disagreements: shrink, property oracle, report
+    rep.coverage["disagreements"] = len(violations)
+    violations.sort(key=lambda v: (v[0] != "tree", len(str(v[1]))))
+    reported = 0
+    for kind, obj, det in violations:
+        if reported >= 6:
+            break
+        reported += 1
+        if kind in ("tree", "eval", "effect") and not isinstance(obj, str):
+            t = obj
+            if kind == "tree":
+                t = shrink_tree(impl, obj)
+                dd = tree_disagrees(impl, [t])[0] or det
+            else:
+                dd = det
+            bad, text, payload = property_oracle(impl, seed, t)
+            payload.update({"tree": sx(t), "kind": kind, "first_seen": det,
+                            "broken": "correspondence Model.parse = real parser (carrier of every C02 theorem)", "shrunk": dd})
+            if kind in ("eval", "effect") and not bad:
+                bad, text = True, "println of the minimal / full / redundant texts %s printed %s (model value %s) with values %s" % (
+                    det.get("texts"), det.get("impl"), det.get("expect"), det.get("values"))
+            rep.violation("corr", payload, ("real parser and proved model disagree on `%s`: %s" % (
+                dd.get("text", det.get("text", "")), text)) if kind == "tree" else text, no_failing_input=not bad)
+        else:
+            rep.violation("corr-text", {"text": det["text"], "model": det["model"], "impl": det["impl"], "kind": kind,
+                                        "broken": "correspondence Model.parse = real parser on a mutated token stream"},
+                          "real parser and proved model disagree on the token stream `%s` (model %s, parser %s)" % (
+                              det["text"], det["model"][:80], str(det["impl"])[:80]),
+                          no_failing_input=True)
+    if proof_broken:
+        # name the obligation; a concrete input was searched above (table-diff trees come first)
+        found = [p for p, _, noinp in rep.violations if not noinp]
+        rep.violation("proof", {"theorem": cq["failed_theorem"], "log": cq["log"][-3000:],
+                                "table_now": rep.coverage["translator"]["levels"],
+                                "pairs_ordered_differently_from_pinned": changed_pairs[:20],
+                                "concrete_input": found[0] if found else None},
+                      "proof obligation %s no longer checks (generated ladder table/shape changed?)" % cq["failed_theorem"],
+                      no_failing_input=not found)
+
+    # ---------------- (6) known findings
+    for f in common.known_findings(PROP):
+        still, obs = replay_finding(impl, f)
+        if still:
+            rep.known(f["id"], f["what_fails"])
+        else:
+            rep.notes.append("known finding %s no longer reproduces (fixed?): %s" % (f["id"], obs))
+
+    rep.coverage.update({
+        "evaluations": n_eval, "distinct_nontrivial": len(nontrivial),
+        "rule": "every case = one expression text given to the real parser (CB_VERIF_DUMP_AST) and to the extracted model, or one "
+                "program printing println(e) for the minimal / fully parenthesised / randomly parenthesised text under operand values "
+                "found by brute force in the model; distinct = distinct text (x operand values); non-trivial = contains an operator",
+        "exhaustive": True,
+        "exhaustive_space": "all 18x18 ordered pairs of binary operators x both groupings x {minimal, full, redundant pair at root/left/right} "
+                            "(%d trees) + %d unary/postfix/ternary/assignment nestings%s; value level: all 648 pair groupings" % (
+                                n_exh, len(nesting_cases()) * 2, "" if quick else " + all 18^3 operator triples x 5 shapes"),
+        "input_distribution": hist, "avoided_known_findings": avoided, "samples": samples,
+    })
+    rep.assumptions += [
+        "the lexer is not modelled: expression texts are printed with one blank between tokens",
+        "identifiers are lower-case and name no type; await/try/checked/new/sizeof, casts to keyword types, method calls, "
+        "chained calls and array literals are outside the modelled fragment (the malformed stream skips them)",
+        "evaluation semantics are observed on the binary only; the model evaluator (int range, C division/shift) is used to pick "
+        "operand values and as a third opinion on printed values",
+        "fuel: the extracted parse uses enough_fuel; an out-of-fuel answer would be reported as a disagreement (never observed)",
+    ]
+
+
+def model_full_one(t):
+    """placeholder resolved in one batch by resolve_full"""
+    return ("FULLREQ", t)
+
+
+def resolve_full(trees):
+    idx = [i for i, t in enumerate(trees) if isinstance(t, tuple) and t and t[0] == "FULLREQ"]
+    if idx:
+        out = model_full([trees[i][1] for i in idx])
+        for i, s in zip(idx, out):
+            trees[i] = s
+    return trees
+
+
+def replay(path):
+    data = json.load(open(path))
+    c = data["case"]
+    common.ensure_model(PROP)
+    impl = common.build_impl("plain")
+    if "program" in c:
+        rc, o, e = common.run_cb(impl, c["program"])
+        print("program:\n" + c["program"]); print("rc", rc); print(o); print(e[:500])
+        ls = o.split("\n")
+        return 0 if rc == 0 and len(ls) >= 2 and ls[0] == ls[1] else 1
+    text = c.get("minimal") or c.get("text") or (c.get("shrunk") or {}).get("text")
+    if text:
+        m = model_parse([text])[0]
+        i = impl_dumps(impl, [text], [False])[0]
+        print("text :", text); print("model:", m); print("impl :", i)
+        if c.get("full"):
+            j = impl_dumps(impl, [c["full"]], [False])[0]
+            print("full :", c["full"]); print("impl :", j)
+            return 0 if model_verdict(m) == i and i == j else 1
+        return 0 if model_verdict(m) == i else 1
+    print(json.dumps(c, indent=1))
+    return 1
